@@ -479,7 +479,7 @@ Proof. vm_compute. repeat split; reflexivity. Qed.
    states of the same script has none although RunJob returned nil *)
 Definition tie_script (v : variant) : script :=
   {| sc_kind := OneOff; sc_variant := v; sc_due := 5; sc_dur := 0; sc_ticks := 0;
-     sc_calls := [ {| cl_at := 5; cl_kind := KRun |} ]; sc_end := 9 |}.
+     sc_calls := [ {| cl_at := 5; cl_kind := KRun |} ]; sc_end := 9; sc_behind := None |}.
 Example C02_tie_script_fixed_and_pinned :
   finals (tie_script Fixed) <> []
   /\ forallb (fun t => negb (cancel_ok (t_core t)) && negb (ctx_done (t_core t)) && (running (t_core t) =? 0)
@@ -493,9 +493,9 @@ Proof. vm_compute. split; [discriminate | split; reflexivity]. Qed.
    C02_script_run_success_runs / C02_script_cancel_before_due *)
 Example C02_script_examples :
   let sc_run := {| sc_kind := OneOff; sc_variant := Fixed; sc_due := 5; sc_dur := 2; sc_ticks := 0;
-                   sc_calls := [ {| cl_at := 4; cl_kind := KRun |}; {| cl_at := 4; cl_kind := KCancel |} ]; sc_end := 9 |} in
+                   sc_calls := [ {| cl_at := 4; cl_kind := KRun |}; {| cl_at := 4; cl_kind := KCancel |} ]; sc_end := 9; sc_behind := None |} in
   let sc_can := {| sc_kind := OneOff; sc_variant := Fixed; sc_due := 9; sc_dur := 0; sc_ticks := 0;
-                   sc_calls := [ {| cl_at := 3; cl_kind := KCancel |}; {| cl_at := 3; cl_kind := KRun |} ]; sc_end := 6 |} in
+                   sc_calls := [ {| cl_at := 3; cl_kind := KCancel |}; {| cl_at := 3; cl_kind := KRun |} ]; sc_end := 6; sc_behind := None |} in
   existsb (fun t => list_eqb cst_eqb (t_calls t) [Ret Nil; Ret ErrNoSuchJob] && (running (t_core t) =? 0)
                     && list_eqb N.eqb (t_starts t) [4]) (finals sc_run) = true
   /\ existsb (fun t => list_eqb cst_eqb (t_calls t) [Ret Nil; Ret ErrNoSuchJob] && list_eqb N.eqb (t_starts t) []) (finals sc_can) = true.
@@ -506,7 +506,7 @@ Proof. vm_compute. split; reflexivity. Qed.
    nil (hypotheses of C02_script_cancelled_before_never_runs) *)
 Example C02_script_cancel_example :
   let sc := {| sc_kind := OneOff; sc_variant := Fixed; sc_due := 5; sc_dur := 1; sc_ticks := 0;
-               sc_calls := [ {| cl_at := 3; cl_kind := KCancel |}; {| cl_at := 5; cl_kind := KRun |} ]; sc_end := 9 |} in
+               sc_calls := [ {| cl_at := 3; cl_kind := KCancel |}; {| cl_at := 5; cl_kind := KRun |} ]; sc_end := 9; sc_behind := None |} in
   existsb (fun t => list_eqb cst_eqb (t_calls t) [Ret Nil; Ret ErrNoSuchJob] && list_eqb N.eqb (t_starts t) []) (finals sc) = true.
 Proof. vm_compute. reflexivity. Qed.
 
@@ -679,7 +679,7 @@ Print Assumptions C02_checked_observation_ctx_exit_leaves_table.
    the run request. *)
 Definition exit_example : script :=
   {| sc_kind := Periodic; sc_variant := Fixed; sc_due := 2; sc_dur := 2; sc_ticks := 2;
-     sc_calls := [{| cl_at := 3; cl_kind := KCtx |}; {| cl_at := 6; cl_kind := KRun |}]; sc_end := 10 |}.
+     sc_calls := [{| cl_at := 3; cl_kind := KCtx |}; {| cl_at := 6; cl_kind := KRun |}]; sc_end := 10; sc_behind := None |}.
 
 Example C02_exit_example :
   (0 <? N.of_nat (length (finals exit_example))) = true
@@ -772,7 +772,7 @@ Print Assumptions C02_cancelled_instances_start_nothing.
    and rejects the one in which the job was left out because it was active: it goes on ticking, it is listed. *)
 Definition prefix_example : script :=
   {| sc_kind := Periodic; sc_variant := Fixed; sc_due := 2; sc_dur := 2; sc_ticks := 9;
-     sc_calls := [{| cl_at := 3; cl_kind := KCancel |}]; sc_end := 14 |}.
+     sc_calls := [{| cl_at := 3; cl_kind := KCancel |}]; sc_end := 14; sc_behind := None |}.
 
 Example C02_prefix_example :
   (0 <? N.of_nat (length (finals prefix_example))) = true
@@ -791,4 +791,101 @@ Example C02_prefix_example :
       /\ timed_ok (finals prefix_example) bad = false)
   /\ (let '(s, outs) := tb_run tb_init [TSched 1 true; TSched 2 false; TSched 3 false; TCancelSet [1; 3; 5]; TList; TSched 1 false] in
       outs = [TCode Nil; TCode Nil; TCode Nil; TCode Nil; TNames [2]; TCode Nil]).
+Proof. vm_compute. repeat split; reflexivity. Qed.
+
+(* --- strengthening round 6: a periodic job whose instances are not in the future ------------------
+   runtimeFunc may hand out an instance that is already due (a fixed-rate schedule whose job overruns its
+   period, a catch-up after a stall, a runtime function that says "now"; [sc_behind], period 0).  All the
+   script-level theorems above quantify over such scripts too.  What the seeded change C02-10 removes is the
+   goroutine's passage through its select between two instances; in the model that passage is a fact about
+   [step], for every state of every configuration: *)
+From Verif Require Import Proofs.C02_Behind.
+
+(* jobFunc is called only from the two call positions; the path leading there (timer branch / run branch) is
+   entered only by a pick of the select on a ready run signal or a ready timer; runtimeFunc handing out an
+   instance -- whatever its time -- leads into the select and runs nothing; in the select a pending cancel
+   signal / a cancelled context can be picked whether or not the timer is due, the pick calls nothing, and
+   from there the goroutine only goes on to its end and never calls jobFunc again *)
+Theorem C02_every_instance_passes_the_select :
+  forall cf s,
+    (forall s', step cf s (GRtOut RtNext) = Some s' ->
+       g_pc s = GRt /\ g_pc s' = GSel /\ timer_due s' = false /\ runs s' = runs s /\ running s' = running s
+       /\ cancelq s' = cancelq s /\ ctx_done s' = ctx_done s /\ runq s' = runq s)
+    /\ (forall a s', step cf s a = Some s' -> runs s' <> runs s ->
+          a = GStep /\ (g_pc s = GRunCall \/ g_pc s = GTimCall))
+    /\ (forall a s', step cf s a = Some s' -> to_job (g_pc s') = true -> to_job (g_pc s) = false ->
+          g_pc s = GSel /\ ((a = GPick BRun /\ ready s BRun = true) \/ (a = GPick BTimer /\ ready s BTimer = true)))
+    /\ (g_pc s = GSel ->
+          (cancelq s = true -> exists s', step cf s (GPick BCancel) = Some s' /\ g_pc s' = GCanFin /\ runs s' = runs s)
+          /\ (ctx_done s = true -> exists s', step cf s (GPick BCtx) = Some s' /\ g_pc s' = GCtxDel /\ runs s' = runs s))
+    /\ (forall a s', step cf s a = Some s' -> leaving (g_pc s) = true -> leaving (g_pc s') = true /\ runs s' = runs s).
+Proof.
+  intros cf s. split; [intros s' H; exact (rt_next_enters_select _ _ _ H)|].
+  split; [intros a s' H Hr; exact (call_only_from_call_pc _ _ _ _ H Hr)|].
+  split; [intros a s' H Ht Hf; exact (to_job_only_from_select _ _ _ _ H Ht Hf)|].
+  split; [intro Hg; exact (select_can_heed cf s Hg)|].
+  intros a s' H Hl; exact (leaving_stays _ _ _ _ H Hl).
+Qed.
+Print Assumptions C02_every_instance_passes_the_select.
+
+(* the clause of P_b about the starts is evaluated in a form that descends only into the branches whose test
+   succeeded; it is the predicate [justified] of C02_every_start_has_its_own_cause *)
+Theorem C02_justified_evaluated_lazily :
+  forall dur sts prev insts runs, justified_l dur prev sts insts runs = justified dur prev sts insts runs.
+Proof. exact justified_l_eq. Qed.
+Print Assumptions C02_justified_evaluated_lazily.
+
+(* what the clause [cancel_heeded] of P_b demands of twelve or more repetitions of one script: in at least one
+   of them every cancellation that took effect (the parent context cancelled, a CancelJob that returned nil, a
+   silent cancellation of a job certainly listed) at [tc] is followed by no start later than five executions
+   of jobFunc after [tc]; and what [ignored k] = false says of one observation (real time: k = 2) *)
+Theorem C02_cancellation_heeded_whatever_the_schedule :
+  (forall sc os, cancel_heeded sc os = true -> 12 <= total_count os ->
+     exists ob, In ob os /\
+       forall tc, In tc (stops sc ob) -> forall s, In s (o_starts (ob_out ob)) -> s <= tc + 5 * sc_dur sc)
+  /\ (forall k sc ob, ignored k sc ob = false ->
+        forall tc, In tc (stops sc ob) -> forall s, In s (o_starts (ob_out ob)) -> s <= tc + k * sc_dur sc).
+Proof. split; [exact cancel_heeded_says | exact not_ignored]. Qed.
+Print Assumptions C02_cancellation_heeded_whatever_the_schedule.
+
+(* non-vacuity: a runtime function that says "now", jobFunc takes 2, CancelJob at 3 while the second
+   execution (started at 2) is in progress, 9 instances.  At every pass through the select the cancel signal and
+   the timer are both ready: the model's script ends with the starts [0;2], [0;2;4], ... (one final state per
+   number of passes lost), the call returned nil in all of them, the name is free in all of them.  The same
+   for a fixed-rate schedule of period 1 overrun by a job that takes 2 (first instance at 1).  P_b accepts twelve
+   repetitions of which eleven stopped at once and one ran two more instances; it rejects twelve repetitions that
+   all ran every instance handed out until the end of the script (what the goroutine of C02-10 does), although
+   each of them is an outcome of the model; in real time (k = 2) it rejects each such repetition by itself. *)
+Definition behind_example : script :=
+  {| sc_kind := Periodic; sc_variant := Fixed; sc_due := 0; sc_dur := 2; sc_ticks := 9;
+     sc_calls := [{| cl_at := 3; cl_kind := KCancel |}]; sc_end := 14; sc_behind := None |}.
+Definition overrun_example : script :=
+  {| sc_kind := Periodic; sc_variant := Fixed; sc_due := 1; sc_dur := 2; sc_ticks := 9;
+     sc_calls := [{| cl_at := 4; cl_kind := KCancel |}]; sc_end := 15; sc_behind := Some 0 |}.
+
+(* the same lists of starts, as sets *)
+Definition same_lists (a b : list (list N)) : bool :=
+  forallb (fun x => existsb (list_eqb N.eqb x) b) a && forallb (fun y => existsb (list_eqb N.eqb y) a) b.
+
+Example C02_behind_example :
+  same_lists (map (fun t => rev (t_starts t)) (finals behind_example))
+    [[0;2]; [0;2;4]; [0;2;4;6]; [0;2;4;6;8]; [0;2;4;6;8;10]; [0;2;4;6;8;10;12]; [0;2;4;6;8;10;12;14]] = true
+  /\ forallb (fun t => list_eqb cst_eqb (t_calls t) [Ret Nil] && negb (in_table (t_core t))) (finals behind_example) = true
+  /\ same_lists (map (fun t => rev (t_starts t)) (finals overrun_example))
+    [[1;3]; [1;3;5]; [1;3;5;7]; [1;3;5;7;9]; [1;3;5;7;9;11]; [1;3;5;7;9;11;13]; [1;3;5;7;9;11;13;15]] = true
+  /\ (let ob n st insts run := {| ob_out := {| o_calls := [Ret Nil]; o_starts := st; o_overlap := 1; o_exists := false;
+                                               o_reuse := Nil; o_reuse_runs := 1; o_panic := false |};
+                                  ob_listed := false; ob_hung := false; ob_running := run; ob_dup := None;
+                                  ob_insts := insts; ob_foreign := [false]; ob_byprefix := [false];
+                                  ob_sibs := []; ob_count := n |} in
+      let heeded := ob 11 [0;2] [0;2;4] 0 in
+      let later := ob 1 [0;2;4;6] [0;2;4;6;8] 0 in
+      let never := ob 12 [0;2;4;6;8;10;12;14] [0;2;4;6;8;10;12;14] 1 in
+      P_b {| c_id := 1; c_body := Timed behind_example [heeded; later] |} = true
+      /\ agree {| c_id := 1; c_body := Timed behind_example [heeded; later] |} = true
+      /\ agree {| c_id := 2; c_body := Timed behind_example [never] |} = true
+      /\ P_timed_exact behind_example never = true
+      /\ P_b {| c_id := 2; c_body := Timed behind_example [never] |} = false
+      /\ P_b {| c_id := 3; c_body := Real behind_example [never] |} = false
+      /\ P_b {| c_id := 4; c_body := Real behind_example [never; heeded] |} = true).
 Proof. vm_compute. repeat split; reflexivity. Qed.
